@@ -36,6 +36,9 @@ pub enum AOp {
     World,
     WorldMut,
     Setup,
+    /// the deprecated aliases `res()` / `mut_res()`
+    Res,
+    MutRes,
 }
 
 #[derive(Clone, Debug, Serialize, Deserialize)]
@@ -90,7 +93,7 @@ impl Prop for C15 {
         self.property
     }
     fn rule(&self) -> &'static str {
-        "plans of 'static harness systems (batches, thread-local systems, deps, barriers) x histories (<= 12 calls) over dispatch / running / wait / wait_without_tl / world / world_mut / setup x pool size {1,2,4,8}; per dispatch optionally one system is held inside run until the harness lets go (after k running() polls, or 0..30 ms later from a helper thread while the caller sits in a blocking accessor), or every pool worker is occupied so that the job cannot start; oracle: at the return of wait / wait_without_tl / world / world_mut / setup / a further dispatch no system is inside run and every ordinary counter equals the dispatches issued; running() is true whenever a system is known to be held or the job cannot have started, and whenever it is false everything issued has finished; the (k+1)-th run of every system begins after the k-th run of every system ended; conflicting windows never overlap and dependency / barrier order holds in the background; thread-local systems run only between the call and the return of a wait(), on the calling thread, once per wait; non-trivial = back-to-back dispatches and a held system that was polled; distinct = case hash"
+        "plans of 'static harness systems (batches, thread-local systems, deps, barriers) x histories (<= 12 calls) over dispatch / running / wait / wait_without_tl / world / world_mut (and their deprecated aliases res / mut_res) / setup x pool size {1,2,4,8}; per dispatch optionally one system is held inside run until the harness lets go (after k running() polls, or 0..30 ms later from a helper thread while the caller sits in a blocking accessor), or every pool worker is occupied so that the job cannot start; oracle: at the return of wait / wait_without_tl / world / world_mut / setup / a further dispatch no system is inside run and every ordinary counter equals the dispatches issued; running() is true whenever a system is known to be held or the job cannot have started, and whenever it is false everything issued has finished; the (k+1)-th run of every system begins after the k-th run of every system ended; conflicting windows never overlap and dependency / barrier order holds in the background; thread-local systems run only between the call and the return of a wait(), on the calling thread, once per wait; non-trivial = back-to-back dispatches and a held system that was polled; distinct = case hash"
     }
     fn stream_len(&self) -> usize {
         500
@@ -120,13 +123,12 @@ impl Prop for C15 {
                 5 | 6 => AOp::Running,
                 7 | 8 => AOp::Wait,
                 9 => AOp::WaitWithoutTl,
-                10 => {
-                    if src.chance(8, 16) {
-                        AOp::World
-                    } else {
-                        AOp::WorldMut
-                    }
-                }
+                10 => match src.pick(4) {
+                    0 => AOp::World,
+                    1 => AOp::WorldMut,
+                    2 => AOp::Res,
+                    _ => AOp::MutRes,
+                },
                 _ => AOp::Setup,
             };
             ops.push(op);
@@ -320,6 +322,24 @@ impl Prop for C15 {
                         let present = w.has_value_raw(res::rid(Res::new(1, 0)));
                         all_done(&ctx, &flat, marks.issued)
                             .map_err(|e| bad(format!("world_mut() returned but {}", e)))?;
+                        if !present {
+                            return Err(bad("a resource vanished from the world".into()));
+                        }
+                    }
+                    AOp::Res => {
+                        #[allow(deprecated)]
+                        let v = res::peek(ad.res(), Res::new(0, 0));
+                        all_done(&ctx, &flat, marks.issued)
+                            .map_err(|e| bad(format!("res() returned but {}", e)))?;
+                        if v.is_none() {
+                            return Err(bad("a resource vanished from the world".into()));
+                        }
+                    }
+                    AOp::MutRes => {
+                        #[allow(deprecated)]
+                        let present = ad.mut_res().has_value_raw(res::rid(Res::new(1, 0)));
+                        all_done(&ctx, &flat, marks.issued)
+                            .map_err(|e| bad(format!("mut_res() returned but {}", e)))?;
                         if !present {
                             return Err(bad("a resource vanished from the world".into()));
                         }
